@@ -17,7 +17,7 @@ pub fn def() -> PropDef {
         nontrivial,
         rule: "handle-manipulation programs of 1-3 clients (clone, downgrade, upgrade, conversions between all kinds, move between clients, drop in any order, drop-then-join) interleaved with submissions, with interval / interval_with / delayed timers and a broker subscription active and, in sub-families, the service registry or a parent's child list as the only strong holder; no stop request, no fault; x seeded schedules; oracle = strong-handle census replayed from the log vs. actor liveness, plus task census at quiescence; non-trivial = the last strong handle went away while an accepted message was still unhandled or while a weak handle, timer or subscription existed; distinct = distinct order of client-op and callback events",
         needed_probes: &["c05_alive_with_handles_checked", "c05_last_drop_drain_checked", "c05_upgrade_after_last_drop", "c05_died_before_weak_dropped", "c05_registry_holder", "c05_child_list_holder", "c05_prompt_termination_checked"],
-        quick_runs: 100_000,
+        quick_runs: 200_000,
         thorough_runs: 2_000_000,
         block: 1,
         flavours: &["tokio"],
